@@ -200,12 +200,13 @@ class TFLiteSerialiser:
         # there can be multiple different types of 3rd party custom operators (i.e. non-"ethos-u" ones). therefore we
         # need to add an extra level of indirection to this particular entry in the operator_code_map to allow for the
         # correct lookup later on
+        # the version is part of the key as well: operators of one type can occur with different versions
         if op_type == Op.Custom:
             if op_type not in self.operator_code_map:
                 self.operator_code_map[op_type] = {}
-            self.operator_code_map[op_type][custom_code] = (idx, tf_code, opt_serializer)
+            self.operator_code_map[op_type][(custom_code, version)] = (idx, tf_code, opt_serializer)
         else:
-            self.operator_code_map[op_type] = (idx, tf_code, opt_serializer)
+            self.operator_code_map[(op_type, version)] = (idx, tf_code, opt_serializer)
 
         OperatorCode.OperatorCodeStart(builder)
         OperatorCode.OperatorCodeAddDeprecatedBuiltinCode(builder, tf_code if tf_code < 127 else 127)
@@ -297,9 +298,9 @@ class TFLiteSerialiser:
         )
 
         if op.type == Op.Custom:
-            op_idx, tflop, opt_serializer = self.operator_code_map[op.type][op.attrs.get("custom_code", "")]
+            op_idx, tflop, opt_serializer = self.operator_code_map[op.type][(op.attrs.get("custom_code", ""), op.version)]
         else:
-            op_idx, tflop, opt_serializer = self.operator_code_map[op.type]
+            op_idx, tflop, opt_serializer = self.operator_code_map[(op.type, op.version)]
 
         builtin_opt_offset = None
         custom_opt_offset = None
